@@ -130,6 +130,8 @@ def run_batch(prop, tier, base_seed, nruns=None, workers=None, wall_cap=None, qu
     harness_errors = []
     ctx = multiprocessing.get_context("fork")
     stop = False
+    broken = [False]
+    per_run_wall = 180 if tier == "quick" else 900
     with ProcessPoolExecutor(max_workers=workers, mp_context=ctx) as ex:
         pending = {}
         it = iter(chunks)
@@ -142,10 +144,17 @@ def run_batch(prop, tier, base_seed, nruns=None, workers=None, wall_cap=None, qu
                     return
                 if time.time() - t0 > wall_cap:
                     return
-                pending[ex.submit(_worker_chunk, (prop, base_seed, c, tier, 120))] = c
+                try:
+                    pending[ex.submit(_worker_chunk, (prop, base_seed, c, tier, per_run_wall))] = c
+                except Exception as e:  # pool broken by a dead worker: harness error, never a violation
+                    harness_errors.append("could not submit runs %s: %r" % (c[:3], e))
+                    broken[0] = True
+                    return
 
         submit_more()
         while pending:
+            if broken[0] and all(f.done() for f in pending):
+                pass
             done = next(as_completed(list(pending)))
             c = pending.pop(done)
             try:
@@ -156,7 +165,7 @@ def run_batch(prop, tier, base_seed, nruns=None, workers=None, wall_cap=None, qu
             results.extend(rs)
             if any(r.get("violation") for r in rs):
                 stop = True
-            if not stop:
+            if not stop and not broken[0]:
                 submit_more()
     results.sort(key=lambda r: r["index"])
     return spec, results, harness_errors, time.time() - t0
@@ -385,15 +394,31 @@ def main_check(prop, tier, base_seed, nruns=None, workers=None):
         if "harness_error" in r:
             harness_errors.append("run %d: %s" % (r["index"], r["harness_error"]))
     viol = [r for r in results if r.get("violation")]
-    sigs = []
+    sigs = Counter()
     for r in results:
-        for k in r.get("probes", {}):
-            if k.startswith("known:") and k[6:] not in sigs:
-                sigs.append(k[6:])
+        for k, v in r.get("probes", {}).items():
+            if k.startswith("known:"):
+                sigs[k[6:]] += v
+    # every open finding listed for this property: replay its recorded example, report it
     kl = []
-    for signature in sorted(sigs):
-        e = known_entry(prop, signature)
-        kl.append("KNOWN-FINDING: property=%s %s" % (prop, (e or {}).get("what", signature)))
+    for f in load_known().get("findings", []):
+        if f.get("property") != prop or f.get("status") != "open":
+            continue
+        reproduced = None
+        rp = f.get("replay")
+        if rp:
+            try:
+                with open(os.path.join(VERIF, rp)) as fh:
+                    doc = json.load(fh)
+                rr = spec.run(doc["case"])
+                reproduced = rr.violation is None and rr.probes.get("known:" + f["signature"], 0) > 0
+                if rr.violation is not None:
+                    # the recorded example now fails in a way the listed signature does not cover
+                    results.append({"index": -1, "violation": list(rr.violation), "case": doc["case"], "probes": {}, "extra": dict(rr.extra)})
+            except Exception as e:
+                harness_errors.append("known finding %s: replay failed: %r" % (f.get("id"), e))
+        kl.append("KNOWN-FINDING: property=%s %s [%s; recorded example %s; met in %d of this run's cases]" % (prop, f.get("what", f["signature"]), f.get("id"), {True: "reproduces", False: "does NOT reproduce any more", None: "not recorded"}[reproduced], sigs.get(f["signature"], 0)))
+    viol = [r for r in results if r.get("violation")]
     status = EXIT_OK
     if viol:
         r = viol[0]
